@@ -408,6 +408,16 @@ pub fn failure_shapes(rng: &mut Rng) -> Vec<Shape> {
         p.push(Ins::addi(A0, A0, 1));
         p.push(Ins::j("spin"));
     }));
+    v.push(mk("function-infinite-loop-several-labels", &|p| {
+        p.push(Ins::call("spin_b"));
+        p.push(Ins::call("spin_a"));
+        exit(p);
+        p.label("spin_b");
+        p.label("spin_c");
+        p.label("spin_a");
+        p.push(Ins::addi(A0, A0, 1));
+        p.push(Ins::j("spin_c"));
+    }));
     v.push(mk("function-exits-inside", &|p| {
         p.push(Ins::call("bye"));
         exit(p);
